@@ -3,7 +3,7 @@
 // extract: the branch structure of columnsMatch, the lookup order of GetByCols / Get, the shape of
 //          checkUniqueConstraints / hasNullForAnyCols and the call order of tableEditor.Insert/Update.
 // run:     key-centred statement histories on the real engine (composite keys with colliding
-//          printed forms, case variants under utf8mb4_0900_ai_ci, prefix indexes over multi-byte
+//          printed forms (the repaired finding pk_print_collision), case variants under utf8mb4_0900_ai_ci, prefix indexes over multi-byte
 //          text, NULLs in unique indexes, key updates); after each statement the outcome class and
 //          a sorted table dump. Model-free oracles: no two stored rows collide on a key under the
 //          columns' collations / character prefixes; a rejected plain INSERT really collides.
@@ -105,6 +105,40 @@ func extract(a hx.ExtractArgs) error {
 	if err := seq(te, "pkTableEditAccumulator", "Get", "pkGet", "getRowKey", "adds.Get", "deletes.Get", "columnsMatch"); err != nil {
 		return err
 	}
+	// getRowKey: the format strings, and what is written with the length-prefixing format (the
+	// repair of finding pk_print_collision: every printed key value is written as "%d:%s," with
+	// its own length, which makes the key injective over composite keys)
+	rk, err := te.Func("pkTableEditAccumulator", "getRowKey")
+	if err != nil {
+		return err
+	}
+	var formats, lenArgs []string
+	ast.Inspect(rk.Body, func(n ast.Node) bool {
+		ce, ok := n.(*ast.CallExpr)
+		if !ok {
+			return true
+		}
+		switch te.Text(ce.Fun) {
+		case "fmt.Sprintf", "fmt.Fprintf", "fmt.Sprint", "fmt.Fprint":
+			for i, arg := range ce.Args {
+				if l, ok := arg.(*ast.BasicLit); ok && l.Kind == token.STRING {
+					f := strings.Trim(l.Value, "\"`")
+					formats = append(formats, f)
+					if strings.Contains(f, "%d") {
+						for _, rest := range ce.Args[i+1:] {
+							lenArgs = append(lenArgs, te.Text(rest))
+						}
+					}
+				}
+			}
+		}
+		return true
+	})
+	if len(formats) == 0 {
+		return fmt.Errorf("getRowKey: no format string found")
+	}
+	lf.DefStringList("getRowKeyFormats", formats)
+	lf.DefStringList("getRowKeyLenArgs", lenArgs)
 	if err := seq(te, "tableEditor", "checkUniqueConstraints", "checkUnique", "hasNullForAnyCols", "ea.GetByCols", "sql.NewUniqueKeyErr"); err != nil {
 		return err
 	}
@@ -189,7 +223,8 @@ func corpus() []hist {
 	ciUq := m.Schema{Cols: []m.Col{{}, {Str: true, CI: true, Nullable: true}}, PK: []int{0}, Uniq: []m.Uniq{{Cols: []int{1}, Prefix: []int{0}}}}
 	pre := m.Schema{Cols: []m.Col{{}, {Str: true, Nullable: true}}, PK: []int{0}, Uniq: []m.Uniq{{Cols: []int{1}, Prefix: []int{1}}}}
 	return []hist{
-		// F-C14-a: printed keys collide — false duplicate, integers and strings
+		// F-C14-a (repaired by the fix: commit for pk_print_collision; these must pass now):
+		// pre-fix printed keys collide — was a false duplicate, integers and strings
 		{c3, []m.Stmt{ins(R(I(1), I(23), I(0)), R(I(12), I(3), I(1)))}},
 		{s2, []m.Stmt{ins(R(S("a"), S("bc"), I(0)), R(S("ab"), S("c"), I(1)))}},
 		// F-C14-b: case-insensitive primary / unique key not enforced
@@ -214,7 +249,8 @@ func corpus() []hist {
 }
 
 // collidingPairs lists pairs of distinct two-column integer keys in 0..max whose printed
-// concatenations are equal.
+// concatenations are equal (the keys the pre-fix getRowKey could not tell apart; the sweep over
+// them is the regression test of the repair).
 func collidingPairs(max int) [][4]int64 {
 	by := map[string][][2]int64{}
 	for a := 0; a <= max; a++ {
